@@ -164,14 +164,6 @@ func vGetLocal(kind cache.EntryKind, mode casblob.CompressionType, wantZstd bool
 	// the hit counts as a use
 	fr := c.lru.ll.Front()
 	vsym.Assert(fr != nil && fr.Value.(*entry).key == key, "get/C05-hit-moves-entry-to-front")
-	if off > it.size {
-		// outside the property (read_offset <= n): only safety is claimed
-		vsym.Reach("get-offset-beyond-blob")
-		_ = rc.Close()
-		vsym.Assert(vsym.Quiesce() == 0, "get/C14-no-goroutine-left")
-		vsym.Assert(vmodel.FS.OpenCount == 0, "get/C14-no-open-file-after-close")
-		return
-	}
 	// content
 	segs, rerr := zstdimpl.Drain(rc, 4)
 	vsym.Assert(rerr == nil, "get/C02-stream-has-no-error")
